@@ -392,7 +392,9 @@ func runE2E(c e2eCase) string {
 		must(err)
 		var osvs []*osvschema.Vulnerability
 		for _, v := range c.Vulns {
-			osvs = append(osvs, v.OSV(eco, c.Table))
+			o := v.OSV(eco, c.Table)
+			o.Aliases = []string{"ALIAS-" + strings.TrimPrefix(v.ID, "V-")} // ignore lists may name a vulnerability by alias
+			osvs = append(osvs, o)
 		}
 		dir, err := os.MkdirTemp(scratch, "e")
 		must(err)
@@ -414,7 +416,11 @@ func runE2E(c e2eCase) string {
 					MaxDepth: c.MaxDepth, UpgradeConfig: cfg},
 			}
 		}
-		res1, err := guidedremediation.FixVulns(mkOpts())
+		// every run gets options built afresh from the case; after the first run the struct handed in is compared with a
+		// pristine copy (FixVulns receives the struct by value, so only writes into the shared backing arrays can show)
+		opts1 := mkOpts()
+		res1, err := guidedremediation.FixVulns(opts1)
+		mutated := !slices.Equal(opts1.IgnoreVulns, c.Ignore) || !slices.Equal(opts1.ExplicitVulns, c.Explicit)
 		if err != nil {
 			return "r=err1"
 		}
@@ -457,7 +463,7 @@ func runE2E(c e2eCase) string {
 				ru = append(ru, fmt.Sprintf("%d.%d:%s:%d", nb.id(nb.names, u.Name, false), nb.id(nb.discs, typeDisc(c, u.Type), true), f, nb.id(nb.vers, u.VersionTo, false)))
 			}
 		}
-		return fmt.Sprintf("r=ok k=%d explicit=%s orig=%s np=%d fixed=%s intro=%s after=%s unfix=%s reqsame=%s ups=%d rb=%s ra=%s ru=%s", c.MaxUpgrades, dots(expl), dots(idNums(res1.Vulnerabilities)), len(res1.Patches),
+		return fmt.Sprintf("r=ok mut=%s k=%d explicit=%s orig=%s np=%d fixed=%s intro=%s after=%s unfix=%s reqsame=%s ups=%d rb=%s ra=%s ru=%s", hx.B(mutated), c.MaxUpgrades, dots(expl), dots(idNums(res1.Vulnerabilities)), len(res1.Patches),
 			dots(fixed), dots(intro), dots(idNums(res2.Vulnerabilities)), dots(unfix), hx.B(slices.Equal(before, after1)), nups, rb, ra, hx.Join(ru, ","))
 	})
 }
@@ -524,9 +530,60 @@ func genE2ESideEffect(r *rand.Rand) e2eCase {
 	return c
 }
 
+// genE2EIgnoreIntroduced: fixing V-001 necessarily brings in V-002 (and sometimes V-003 on a package only the newer version
+// pulls in); the ignore list names those later vulnerabilities — absent from the ORIGINAL graph — by id or by alias, alone or
+// mixed with present ones, with and without NoIntroduce.
+func genE2EIgnoreIntroduced(r *rand.Rand) e2eCase {
+	c := e2eCase{Eco: "n", Table: e2eNpmVers, MaxUpgrades: []int{1, 1, 0}[r.Intn(3)], NoIntroduce: r.Intn(3) == 0, DevDeps: true, MaxDepth: -1, Levels: map[string]int{}}
+	top, extra := "alpha", "tee"
+	if r.Intn(2) == 0 {
+		c.Eco, c.Table = "m", e2eMvnVers
+		top, extra = "g:alpha", "g:tee"
+	}
+	n := len(c.Table)
+	k := 1 + r.Intn(n-2)
+	p := remx.Pkg{Name: top, Versions: c.Table, Deps: map[string][]string{}}
+	for i, v := range c.Table {
+		if i >= k && r.Intn(2) == 0 {
+			p.Deps[v] = []string{extra + "@" + c.Table[0]}
+		}
+	}
+	c.Pkgs = []remx.Pkg{{Name: extra, Versions: c.Table[:1]}, p}
+	reqv := c.Table[0]
+	if c.Eco == "n" {
+		reqv = []string{reqv, "~" + reqv, "^" + reqv}[r.Intn(3)]
+	}
+	c.Root = []rootDep{{Name: top, Req: reqv}}
+	c.Vulns = []remx.VulnSpec{
+		{ID: vid(1), Pkg: top, Introduced: -1, Fixed: k, Last: -1},
+		{ID: vid(2), Pkg: top, Introduced: k, Fixed: -1, Last: -1},
+		{ID: vid(3), Pkg: extra, Introduced: -1, Fixed: -1, Last: -1},
+	}
+	name := func(i int) string {
+		if r.Intn(2) == 0 {
+			return fmt.Sprintf("ALIAS-%03d", i)
+		}
+		return vid(i)
+	}
+	switch r.Intn(4) {
+	case 0:
+		c.Ignore = []string{name(2)}
+	case 1:
+		c.Ignore = []string{name(3)}
+	case 2:
+		c.Ignore = []string{name(2), name(3)}
+	default:
+		c.Ignore = []string{name(3), "V-999", name(2)} // and one that matches nothing
+	}
+	return c
+}
+
 func genE2E(r *rand.Rand) e2eCase {
-	if r.Intn(4) == 0 {
+	switch r.Intn(8) {
+	case 0, 1:
 		return genE2ESideEffect(r)
+	case 2:
+		return genE2EIgnoreIntroduced(r)
 	}
 	c := e2eCase{Eco: "n", Table: e2eNpmVers, MaxUpgrades: []int{1, 1, 1, 0, 2}[r.Intn(5)], NoIntroduce: r.Intn(4) == 0, DevDeps: r.Intn(4) != 0, MaxDepth: []int{-1, -1, 1, 2}[r.Intn(4)], Levels: map[string]int{}}
 	names := []string{"alpha", "socket.io", "@scope/beta", "tee"}
@@ -610,8 +667,22 @@ func genE2E(r *rand.Rand) e2eCase {
 		}
 		c.Vulns = append(c.Vulns, v)
 	}
-	if r.Intn(6) == 0 {
-		c.Ignore = []string{vid(1 + r.Intn(nv))}
+	if r.Intn(3) == 0 {
+		// ignore lists, by id or by alias; preferably the LATER links of the chain: vulnerabilities that are absent from the
+		// original graph and only enter it with what a patch brings in (and mixtures with ones that are present)
+		for k := 1 + r.Intn(2); k > 0; k-- {
+			i := 1 + r.Intn(nv)
+			if nv >= 2 && r.Intn(3) != 0 {
+				i = 2 + r.Intn(nv-1)
+			}
+			e := vid(i)
+			if r.Intn(2) == 0 {
+				e = "ALIAS-" + strings.TrimPrefix(e, "V-")
+			}
+			if !slices.Contains(c.Ignore, e) {
+				c.Ignore = append(c.Ignore, e)
+			}
+		}
 	}
 	if r.Intn(8) == 0 {
 		c.Explicit = []string{vid(1 + r.Intn(nv))}
